@@ -70,6 +70,7 @@ Coarse ==
       [] Family = "C07" -> {<<"dcr", d>> : d \in 0..MaxD} \cup {<<"wrapped", c>> : c \in 1..MaxC}
                            \cup {<<"tall", r>> : r \in {21, 22, 23, 45, 101}}      \* beyond the 21-line sniffing window
                            \cup {<<"wide", c>> : c \in {11, 12, 13, 24}}           \* ten and more surplus (unnamed) columns
+                           \cup {<<"dlm", dl>> : dl \in {"COMMA", "TAB"}}              \* a declared delimiter, c <, =, > d
       [] Family = "C02" -> {<<r, c, f, early>> : r \in 1..MaxR, c \in 1..MaxC, f \in Followers, early \in BOOLEAN}
       [] Family = "C06" -> {<<r, c, tc, pol, hasnull, w>> : r \in 1..MaxR, c \in 2..MaxC, tc \in {0, 2}, pol \in {"strict", "none"},
                                                            hasnull \in BOOLEAN, w \in {"NO", "YES"}}
@@ -91,6 +92,9 @@ Fine(a) ==
                                 \o ABlock(2, c, [NoDeco(2) EXCEPT ![1] = [q \in 1..k |-> kind]], Fin), opts |-> Opts0,
                        tag |-> <<"tallhead", a[2], d, c, k, kind>>] : c \in 1..3, d \in 0..4, k \in {20, 21, 22},
                                                                      kind \in (IF a[2] = 21 THEN {"comment", "blank"} ELSE {})}
+           ELSE IF a[1] = "dlm"
+           THEN {[text |-> VBlock("NO", a[2]) \o WBlock("null1") \o CBlock(d) \o ABlock(r, c, NoDeco(r), Fin), opts |-> Opts0,
+                  tag |-> <<"dlm", a[2], d, c, r>>] : d \in 0..3, c \in 1..4, r \in 1..3}
            ELSE IF a[1] = "wide"
            THEN {[text |-> VBlock("NO", "SPACE") \o WBlock("null1") \o CBlock(d) \o ABlock(r, a[2], NoDeco(r), Fin), opts |-> Opts0,
                   tag |-> <<"wide", a[2], d, r>>] : d \in 0..2, r \in 1..2}
